@@ -12,8 +12,21 @@ use std::path::Path;
 pub struct C08;
 
 /// start images
-const VARIANTS_QUICK: [&str; 7] = ["empty", "val-below-16k", "val-above-16k", "key-below-16k", "key-above-16k", "both-below-16k", "both-above-16k"];
-const VARIANTS_THOROUGH: [&str; 11] = [
+const VARIANTS_QUICK: [&str; 9] = [
+    "empty",
+    "val-below-16k",
+    "val-above-16k",
+    "key-below-16k",
+    "key-above-16k",
+    "both-below-16k",
+    "both-above-16k",
+    // walk-only start images (large files: no image restore between steps)
+    "walk-aged-large-free",
+    "walk-val-above-16m",
+];
+const VARIANTS_THOROUGH: [&str; 13] = [
+    "walk-aged-large-free",
+    "walk-val-above-16m",
     "empty",
     "val-below-16k",
     "val-above-16k",
@@ -28,6 +41,16 @@ const VARIANTS_THOROUGH: [&str; 11] = [
 ];
 
 const VAL_SIZES: [u32; 4] = [0, 14, 15, 1100];
+
+/// value sizes of the put transitions; the aged image (thousands of free large slots) also asks
+/// for a slot none of the freed ones can hold
+fn val_size(variant: &str, i: usize) -> u32 {
+    if variant == "walk-aged-large-free" {
+        [0u32, 15, 1100, 5000][i % 4]
+    } else {
+        VAL_SIZES[i % 4]
+    }
+}
 const KEY_LENS: [u32; 4] = [10, 11, 19, 26];
 const BUCKET: u64 = 5;
 
@@ -89,6 +112,32 @@ fn build_seed(variant: &str, dir: &Path) -> Result<Seed, Failure> {
     {
         let db = io(abyssiniandb::open_file(dir), "open_file")?;
         let mut m = io(open_map(&db, "c", Kt::Bytes, &params()), "open map")?;
+        if variant == "walk-aged-large-free" {
+            // 1300 entries with values of 1100..1500 bytes, every second one deleted again
+            let mut ks = Vec::new();
+            for i in 0..2600u32 {
+                let k = filler_key(50_000 + i, 9);
+                let v = pattern_bytes(1100 + (i as usize % 4) * 128, i);
+                io(m.put(&k, &v), "put (seed)")?;
+                model.insert(k.clone(), v);
+                ks.push(k);
+            }
+            for (i, k) in ks.iter().enumerate() {
+                if i % 2 == 0 {
+                    io(m.delete(k), "delete (seed)")?;
+                    model.remove(k);
+                }
+            }
+        }
+        if variant == "walk-val-above-16m" {
+            // the value file ends beyond 16 MiB: offsets/8 of new records need a 4-byte code
+            for i in 0..2u32 {
+                let k = filler_key(60_000 + i, 9);
+                let v = pattern_bytes(8 * 1024 * 1024 + 4096, i);
+                io(m.put(&k, &v), "put (seed)")?;
+                model.insert(k, v);
+            }
+        }
         let target: Option<i64> = if variant.ends_with("16k") {
             Some(16384)
         } else if variant.ends_with("2m") {
@@ -263,6 +312,7 @@ macro_rules! sfail {
 }
 
 /// one transition: restore image, open, one call, observe, close, decode
+#[allow(clippy::too_many_arguments)]
 fn step(
     dir: &Path,
     files: &[Vec<u8>; 3],
@@ -272,9 +322,28 @@ fn step(
     keys: &[Vec<u8>],
     fillers: &[Vec<u8>],
 ) -> Result<StepOut, Failure> {
+    step_v(dir, files, model, before, t, keys, fillers, "", false)
+}
+
+/// `on_disk`: the directory already holds exactly `files` (walks: no restore needed)
+#[allow(clippy::too_many_arguments)]
+fn step_v(
+    dir: &Path,
+    files: &[Vec<u8>; 3],
+    model: &BTreeMap<Vec<u8>, Vec<u8>>,
+    before: Option<&Decoded>,
+    t: u8,
+    keys: &[Vec<u8>],
+    fillers: &[Vec<u8>],
+    variant: &str,
+    on_disk: bool,
+) -> Result<StepOut, Failure> {
+    crate::exec::tick();
     let names = file_names("c");
-    for i in 0..3 {
-        std::fs::write(dir.join(&names[i]), &files[i]).map_err(|e| Failure::new("infra", None, format!("write: {e}")))?;
+    if !on_disk {
+        for i in 0..3 {
+            std::fs::write(dir.join(&names[i]), &files[i]).map_err(|e| Failure::new("infra", None, format!("write: {e}")))?;
+        }
     }
     let mut model = model.clone();
     {
@@ -282,7 +351,7 @@ fn step(
         let mut m = io(open_map(&db, "c", Kt::Bytes, &params()), "open map")?;
         if t < 16 {
             let k = &keys[(t / 4) as usize];
-            let v = pattern_bytes(VAL_SIZES[(t % 4) as usize] as usize, t as u32);
+            let v = pattern_bytes(val_size(variant, (t % 4) as usize) as usize, t as u32);
             io(m.put(k, &v), &describe(t))?;
             model.insert(k.clone(), v);
         } else {
@@ -380,6 +449,10 @@ fn bfs(variant: &str, cap: u64, walk_seed: u64, n_walks: u64, walk_len: u64, w: 
     } else {
         fillers
     };
+    let walk_only = variant.starts_with("walk-");
+    let cap = if walk_only { 1 } else { cap };
+    let n_walks = if walk_only { (n_walks / 4).max(20) } else { n_walks };
+    let walk_len = if walk_only { 25 } else { walk_len };
     let mut stats = BfsStats {
         variant: variant.into(),
         seed_key_len: seed.files[1].len() as u64,
@@ -430,7 +503,7 @@ fn bfs(variant: &str, cap: u64, walk_seed: u64, n_walks: u64, walk_len: u64, w: 
             w.note_current(&json!({"variant": variant, "path": path}));
             let r = {
                 crate::runner::quiet_panics(true);
-                let r = std::panic::catch_unwind(std::panic::AssertUnwindSafe(|| step(&dir, &files, &model, Some(&before), t, &keys, &fillers)));
+                let r = std::panic::catch_unwind(std::panic::AssertUnwindSafe(|| step_v(&dir, &files, &model, Some(&before), t, &keys, &fillers, variant, false)));
                 crate::runner::quiet_panics(false);
                 match r {
                     Ok(x) => x,
@@ -506,7 +579,7 @@ fn bfs(variant: &str, cap: u64, walk_seed: u64, n_walks: u64, walk_len: u64, w: 
                 w.note_current(&json!({"variant": variant, "path": path}));
                 let before = decoder::decode(Kt::Bytes, &files[0], &files[1], &files[2]);
                 crate::runner::quiet_panics(true);
-                let r = std::panic::catch_unwind(std::panic::AssertUnwindSafe(|| step(&dir, &files, &model, Some(&before), t, &keys, &fillers)));
+                let r = std::panic::catch_unwind(std::panic::AssertUnwindSafe(|| step_v(&dir, &files, &model, Some(&before), t, &keys, &fillers, variant, path.len() > 1)));
                 crate::runner::quiet_panics(false);
                 let r = match r {
                     Ok(x) => x,
@@ -565,7 +638,7 @@ fn replay_path(c: &C08Case, w: &WCtx) -> Result<Report, Failure> {
         for (i, &t) in c.path.iter().enumerate() {
             ctx.cur_op.set(i);
             let before = decoder::decode(Kt::Bytes, &files[0], &files[1], &files[2]);
-            let so = step(&dir, &files, &model, Some(&before), t, &keys, &fillers).map_err(|mut f| {
+            let so = step_v(&dir, &files, &model, Some(&before), t, &keys, &fillers, &c.variant, i > 0).map_err(|mut f| {
                 f.op = Some(i);
                 f
             })?;
@@ -590,7 +663,7 @@ impl Prop for C08 {
         "C08"
     }
     fn rule(&self) -> String {
-        "bounded-exhaustive breadth-first enumeration of ON-DISK IMAGES: 8-bucket table, alphabet of 4 keys that all hash to one bucket with lengths 10, 11, 19, 26 (tight for their key slots), value sizes {0, 14, 15, 1100}; 20 transitions per image (16 put(k,size), 4 delete(k)); start images: empty, and seeded images built from filler entries in other buckets so that the end of the value file, of the key file, or of both lies within 48 bytes below / at or above 16 KiB (thorough: also 2 MiB), with freed slots of the alphabet's classes lying below the boundary. Image identity = digest of the three files; each transition = restore the image, open, one call, close. When the cap cuts the breadth-first search, 150 (thorough: 1500) seeded random walks of 30 calls from the start image go beyond the frontier with the same oracle. Oracle at every transition: the call's result vs the model, get of all alphabet keys and of (a sample of) the filler entries, len, then independent decode: structure, tiling, contents == model; two call paths to one image must carry one model. evaluations = transitions executed; states = distinct images (cap per start image: quick 3000, thorough 60000; evidence says per start image whether the graph was closed under the cap). Non-trivial: a transition in which a surviving key record changed its offset or one of its offset fields changed its encoded width (distinct by image digest x transition)."
+        "bounded-exhaustive breadth-first enumeration of ON-DISK IMAGES: 8-bucket table, alphabet of 4 keys that all hash to one bucket with lengths 10, 11, 19, 26 (tight for their key slots), value sizes {0, 14, 15, 1100}; 20 transitions per image (16 put(k,size), 4 delete(k)); start images: empty, two walk-only images (an aged store with 1300 slots on the shared large free list and transitions that also ask for 5000 bytes; a value file beyond 16 MiB), and seeded images built from filler entries in other buckets so that the end of the value file, of the key file, or of both lies within 48 bytes below / at or above 16 KiB (thorough: also 2 MiB), with freed slots of the alphabet's classes lying below the boundary. Image identity = digest of the three files; each transition = restore the image, open, one call, close. When the cap cuts the breadth-first search, 150 (thorough: 1500) seeded random walks of 30 calls from the start image go beyond the frontier with the same oracle. Oracle at every transition: the call's result vs the model, get of all alphabet keys and of (a sample of) the filler entries, len, then independent decode: structure, tiling, contents == model; two call paths to one image must carry one model. evaluations = transitions executed; states = distinct images (cap per start image: quick 3000, thorough 60000; evidence says per start image whether the graph was closed under the cap). Non-trivial: a transition in which a surviving key record changed its offset or one of its offset fields changed its encoded width (distinct by image digest x transition)."
             .to_string()
     }
     fn assumptions(&self) -> Vec<String> {
